@@ -115,7 +115,7 @@ func Code(st Status) uint64 {
 			return 3
 		case "close":
 			return 4
-		case "send", "recv":
+		case "send", "recv", "ds":
 			return 6
 		}
 	}
